@@ -206,8 +206,8 @@ class KPRun:
         kb = KeyBindings()
         for idx, b in enumerate(bindings):
             ks, f, eg, gl, hid, acts = b[:6]
-            kb.add(*[self.KM[k] for k in ks], filter=self.env.top(f), eager=self.env.top(eg),
-                   is_global=bool(gl))(self.make_handler(idx, acts))
+            kb.add(*[self.KM[k] for k in ks], filter=self.init_filter(f), eager=self.env.top(eg),
+                   is_global=bool(gl))(self.handler_for(idx, b))
         self.kb = kb
         reg = kb
         if wrap == 1:
@@ -253,6 +253,22 @@ class KPRun:
         self.watchdog_s = 10
         self.raise_info = None
 
+    last_pos = None
+
+    def handler_for(self, idx, b):
+        return self.make_handler(idx, b[5])
+
+    def init_filter(self, f):
+        return self.env.top(f)
+
+    def pos_of(self, idx):
+        """binding index reported for a call of handler idx (position in KeyBindings.bindings at call time)"""
+        return idx
+
+    def reg_desc(self):
+        """descriptions of the bindings registered right now, in order"""
+        return self.bindings
+
     def to_item(self, k):
         return self.Flush if k == -1 else self.KeyPress(self.KM[k])
 
@@ -264,7 +280,10 @@ class KPRun:
         h = p._previous_handler
         if h is None and not p._previous_key_sequence:
             return []
-        return [getattr(getattr(h, "handler", None), "_c04i", -7), [self.RK.get(k.key, -7) for k in p._previous_key_sequence]]
+        i = getattr(getattr(h, "handler", None), "_c04i", -7)
+        if self.last_pos is not None:
+            i = self.last_pos.get(i, -7)
+        return [i, [self.RK.get(k.key, -7) for k in p._previous_key_sequence]]
 
     def check_cpr_frame(self):
         """a delivered cursor position report must have left the pending keys (key_buffer) alone - that much is the
@@ -307,7 +326,7 @@ class KPRun:
             self.accounted = 0
         for j in range(self.accounted, pos):
             self.events.append([1, self.stream[j]])
-            self.drops.append({"key": self.stream[j], "buffer": self.stream[j:], "env": list(self.env.v[:self.nenv]),
+            self.drops.append({"key": self.stream[j], "buffer": self.stream[j:], "env": list(self.env.v[:self.nenv]), "bindings": self.reg_desc(),
                                "flush": self.last_item_flush, "first_pass": self.since_pop == 0})
             self.since_pop += 1
         self.accounted = pos
@@ -341,10 +360,13 @@ class KPRun:
             if ks == [6]:
                 return cpr_body(event, bufsnap)
             pos = self.sync(len(bufsnap))
-            self.calls.append({"i": idx, "ks": ks, "buffer": bufsnap, "env": list(self.env.v[:self.nenv]),
+            pidx = self.pos_of(idx)
+            if self.last_pos is not None:
+                self.last_pos[idx] = pidx
+            self.calls.append({"i": pidx, "ks": ks, "buffer": bufsnap, "env": list(self.env.v[:self.nenv]), "bindings": self.reg_desc(),
                                "flush": self.last_item_flush, "first_pass": self.since_pop == 0,
                                "pos": pos, "prev_end": self.accounted, "stream": list(self.stream)})
-            self.events.append([0, idx, ks])
+            self.events.append([0, pidx, ks])
             self.del_owner = ("call", len(ks))
             self.since_pop += 1
             self.accounted = pos + len(ks)
@@ -362,6 +384,18 @@ class KPRun:
                     try:
                         event.app.exit()
                     except Exception:
+                        self.raise_info = (bufsnap[len(ks):], [self.from_item(x) for x in p.input_queue])
+                        raise HandlerError()
+                elif a[0] == 5:
+                    # the handler registers a binding: kb.add(...)(handler)
+                    nb = a[1]
+                    self.kb.add(*[self.KM[k] for k in nb[0]], filter=self.env.build(nb[1]), eager=self.env.top(nb[2]),
+                                is_global=bool(nb[3]))(self.handler_for(None, nb))
+                elif a[0] == 6:
+                    # the handler unregisters a handler: kb.remove(function); ValueError when it is not registered
+                    try:
+                        self.kb.remove(self.fns.get(a[1]) or (lambda event: None))
+                    except ValueError:
                         self.raise_info = (bufsnap[len(ks):], [self.from_item(x) for x in p.input_queue])
                         raise HandlerError()
                 elif a[0] == 4:
@@ -480,10 +514,51 @@ class KPRun:
                                     "cpr_calls": self.cpr_calls[ncpr0:], "cpr_broken": list(self.cpr_broken), "done_pops": list(self.done_pops), "env_for_pending": self.env_for_pending,
                                     "after_raise": after_raise, "last_flush": self.last_item_flush,
                                     "since_pop": self.since_pop, "stream": list(self.stream),
-                                    "accounted": self.accounted, "items": its,
+                                    "accounted": self.accounted, "items": its, "bindings_end": self.reg_desc(),
                                     "obs_drops": list(self.obs_drops), "buffer_observed": isinstance(p.key_buffer, ObsList)})
             if status in (98, 99):
                 break
+        return out
+
+
+class KPRunM(KPRun):
+    """family 5: handlers that mutate the registry during a pass.  case = [5, env, bindings, table, ops, fuel];
+    table rows [hid, [[0, binding] | [1, hid], ...]]: what the handler with identity hid does to the KeyBindings
+    first (kb.add / kb.remove(handler)), before its other actions.  Handler identities are unique per description."""
+
+    def __init__(self, case, wrap=0):
+        _, env, bindings, table, ops, fuel = case
+        self.table = {}
+        for h, ms in table:
+            self.table.setdefault(h, ms)        # the first row of a handler counts (Model muts_of)
+        self.fns, self.desc_of, self.last_pos = {}, {}, {}
+        KPRun.__init__(self, [1, env, bindings, ops, fuel], wrap)
+
+    def handler_for(self, idx, b):
+        hid = b[4]
+        if hid not in self.fns:
+            acts = [[5, m[1]] if m[0] == 0 else [6, m[1]] for m in self.table.get(hid, [])] + list(b[5])
+            self.fns[hid] = self.make_handler(hid, acts)
+            self.desc_of[hid] = b
+        return self.fns[hid]
+
+    def init_filter(self, f):
+        # always a Filter object: add() does not register a binding whose filter is an instance of Never,
+        # so the initial registry is what the same adds give in the model (positions matter here)
+        return self.env.build(f)
+
+    def pos_of(self, hid):
+        fn = self.fns.get(hid)
+        ps = [i for i, b in enumerate(self.kb._bindings) if b.handler is fn]
+        return ps[-1] if ps else -7      # identical bindings registered twice: dispatch picks the last registered
+
+    def reg_desc(self):
+        return [self.desc_of.get(getattr(b.handler, "_c04i", None), [[-7], [1], [1], 0, -7, []]) for b in self.kb._bindings]
+
+    def run(self):
+        out = KPRun.run(self)
+        if len(out) == len(self.ops) and not (out and out[-1][0] in (97, 98, 99)):
+            out.append([60, [getattr(b.handler, "_c04i", -7) for b in self.kb._bindings]])
         return out
 
 
@@ -530,7 +605,10 @@ def kp_oracle(case, recs):
             return ("process_keys hung or raised something else than the handler's exception", "crash", {"op": n})
         for c in r["calls"]:
             e, ks, bufc = c["env"], c["ks"], c["buffer"]
-            b = bindings[c["i"]]
+            ib = list(enumerate(c["bindings"] if "bindings" in c else bindings))     # the registry as it was when the handler was called
+            if not 0 <= c["i"] < len(ib):
+                return ("a handler was called that is not registered", "specificity", {k: c[k] for k in ("i", "ks", "buffer")})
+            b = ib[c["i"]][1]
             # each key delivered once, in input order
             if c["pos"] < c["prev_end"]:
                 return ("a key was delivered to two handler invocations", "conservation", c)
@@ -562,11 +640,13 @@ def kp_oracle(case, recs):
         # the environment only changes in handlers
         for d in r["drops"]:
             e, bd = d["env"], d["buffer"]
+            ib = list(enumerate(d["bindings"] if "bindings" in d else bindings))
             for m in range(1, len(bd) + 1):
                 if any(b_exact(x, bd[:m]) and feval(x[1], e) for _, x in ib):
                     return ("a key was dropped although a prefix of the pending keys had an active match", "rule-drop", d)
             if any(b_longer(x, bd) and feval(x[1], e) for _, x in ib) and not (d["flush"] and d["first_pass"]):
                 return ("a key was dropped while a longer active binding was still possible (no flush)", "rule-wait", d)
+        ib = list(enumerate(r["bindings_end"] if "bindings_end" in r else bindings))
         if "obs_drops" in r:
             inferred = [ev[1] for ev in r["events"] if ev[0] == 1]
             if not r["buffer_observed"] or r["obs_drops"] != inferred:
@@ -1187,6 +1267,63 @@ def gen_keyproc(chk, dist):
         cases.append([1, [rng.randint(0, 1) for _ in range(NCOND)], bs, ops, FUEL])
         wraps.append(rng.choice([0, 0, 1, 2, 3]))
         dist["keyproc_random"] += 1
+    # (c) family 5: handlers that add / remove bindings while the keys are being processed
+    # (c1) small scope: two initial bindings from a pool (one may be a 3-key sequence so that keys wait and are
+    # then re-examined by the retry pass), each handler doing one registry mutation from a pool, x every
+    # sequence over {a, b} up to length 4 fed at once, and up to length 3 one key at a time
+    newX = [[2], [0], [1], 0, 10, []]                      # b -> h10
+    newY = [[1, 2], [0], [1], 0, 11, []]                   # a b -> h11
+    newZ = [[0], [2, 0], [0], 0, 12, [[0, 0]]]             # Any (filter c0, eager) -> h12 flips c0
+    newN = [[1], [3, [0]], [1], 0, 13, []]                 # filter ~Always(): an instance of Never, not registered
+    ipool = [[[1], [0], [1], 0, 0, []], [[1, 2, 1], [0], [1], 0, 1, []], [[2], [0], [1], 0, 2, []], [[0], [0], [1], 0, 3, []],
+             [[1, 1], [0], [1], 0, 4, []], [[2], [0], [1], 0, 5, [[1]]]]
+    mpool = [[], [[0, newX]], [[0, newY]], [[0, newZ]], [[0, newN]], [[1, 0]], [[1, 2]], [[1, 10]], [[0, newX], [1, 1]], [[1, 1], [0, newY]]]
+    mseqs = []
+    for n in range(1, 5):
+        mseqs += [list(x) for x in itertools.product([1, 2], repeat=n)]
+    for a in range(len(ipool)):
+        for b in range(len(ipool)):
+            if a == b:
+                continue
+            for ma in mpool:
+                for mb in mpool:
+                    if not ma and not mb:
+                        continue
+                    for sq in mseqs:
+                        if rng.random() < (0.25 if thorough else 0.02):
+                            tbl = [[ipool[a][4], ma], [ipool[b][4], mb], [10, rng.choice([[], [[1, 10]], [[0, newY]]])]]
+                            ops = [list(sq)] if rng.random() < 0.5 else [[k] for k in sq]
+                            cases.append([5, [1], [ipool[a], ipool[b]], tbl, ops + [[1], [2]], FUEL])
+                            wraps.append(rng.choice([0, 0, 1, 2, 3]))
+                            dist["keyproc_mutating_small_scope"] += 1
+    # (c2) structured random
+    for _ in range(20000 if thorough else 2500):
+        alpha = (1, 2) if rng.random() < 0.6 else (1, 2, 3)
+        nb = rng.choice([1, 2, 2, 3, 4])
+        bs = [rand_binding(rng, i, alpha) for i in range(nb)]
+        news = [rand_binding(rng, 10 + i, alpha) for i in range(rng.choice([1, 2, 3]))]
+        if rng.random() < 0.15:
+            for b in rng.sample(bs + news, 1):
+                b[5].insert(rng.randint(0, len(b[5])), [4])
+        hids = [b[4] for b in bs + news]
+        tbl = []
+        for h in rng.sample(hids, rng.randint(1, len(hids))):
+            ms = []
+            for _ in range(rng.choice([1, 1, 2])):
+                ms.append([0, rng.choice(news)] if rng.random() < 0.6 else [1, rng.choice(hids + [99])])
+            tbl.append([h, ms])
+        ops = []
+        for _ in range(rng.randint(1, 10)):
+            r = rng.random()
+            if r < 0.07:
+                ops.append([-2 - rng.randrange(NCOND)] if rng.random() < 0.85 else [-1000])
+            elif r < 0.1:
+                ops.append([-1001])
+            else:
+                ops.append([rng.choice(list(alpha) + [alpha[0], -1]) for _ in range(rng.choice([1, 1, 2, 3, 4]))])
+        cases.append([5, [rng.randint(0, 1) for _ in range(NCOND)], bs, tbl, ops, FUEL])
+        wraps.append(rng.choice([0, 0, 1, 2, 3]))
+        dist["keyproc_mutating_random"] += 1
     return cases, wraps
 
 
@@ -1431,6 +1568,10 @@ def impl_case(case, wrap=0):
             r.watchdog_s = 120
             out = r.run()
         return out, kp_oracle(case, r.op_records)
+    if fam == 5:
+        r = KPRunM(case, wrap)
+        out = r.run()
+        return out, kp_oracle([1, case[1], case[2], case[4], case[5]], r.op_records)
     if fam == 2:
         out, recs = fl_impl(case)
         return out, fl_oracle(recs)
@@ -1443,13 +1584,13 @@ def impl_case(case, wrap=0):
     return out, reg_oracle(recs)
 
 
-FAMILY = {1: "keyproc", 2: "filters", 3: "registry", 4: "global-dynamic"}
+FAMILY = {1: "keyproc", 2: "filters", 3: "registry", 4: "global-dynamic", 5: "keyproc-mutating"}
 
 
 def nontrivial(case, out):
     fam = case[0]
-    if fam == 1:
-        return any(isinstance(r, list) and len(r) > 1 and any(ev[0] in (0, 6) for ev in r[1]) for r in out)
+    if fam in (1, 5):
+        return any(isinstance(r, list) and len(r) > 2 and any(isinstance(ev, list) and ev[0] in (0, 6) for ev in r[1]) for r in out)
     if fam == 2:
         return any(o[0] >= 3 for o in case[2])
     if fam == 4:
@@ -1471,7 +1612,7 @@ def main(tier):
         return chk.finish()
 
     t0 = time.time()
-    dist = {"keyproc_small_scope": 0, "keyproc_random": 0, "keyproc_sigint_small_scope": 0, "keyproc_sigint_ops": 0, "keyproc_reentry": 0, "keyproc_reentry_small_scope": 0,
+    dist = {"keyproc_small_scope": 0, "keyproc_random": 0, "keyproc_sigint_small_scope": 0, "keyproc_sigint_ops": 0, "keyproc_reentry": 0, "keyproc_reentry_small_scope": 0, "keyproc_mutating_small_scope": 0, "keyproc_mutating_random": 0,
             "registry_eviction": 0, "registry_small_scope": 0, "registry_real_maxsize": 0, "filters_small_scope": 0, "filters_random": 0,
             "registry_random": 0, "registry_dynamic_switch": 0, "global_dynamic": 0}
     kp_cases, wraps = gen_keyproc(chk, dist)
@@ -1519,7 +1660,7 @@ def main(tier):
     t0 = time.time()
     model_results = run_model("c04", cases)
     timing["model_run"] = round(time.time() - t0, 1)
-    model_results = [kp_model_post(m) if c[0] == 1 else m for c, m in zip(cases, model_results)]
+    model_results = [kp_model_post(m) if c[0] in (1, 5) else m for c, m in zip(cases, model_results)]
     nbad = 0
     for i, (c, a, m) in enumerate(zip(cases, impl_results, model_results)):
         a = sx_norm(a)
@@ -1569,10 +1710,13 @@ def main(tier):
         "functions and as pre-built Binding objects (key_binding decorator). non-trivial = some handler fired / some operator "
         "applied / some lookup returned a binding; distinct by hash of the whole case. Round 6: KeyProcessor.send_sigint() as an op, handlers that call "
         "process_keys() themselves, registry small scope (fixed store with every wrapper kind x every sequence of <= 3 mutations, all wrappers "
-        "probed with prefix and exact lookups before and directly after each), SimpleCache eviction (small maxsize, and the real maxsize "
+        "probed with prefix and exact lookups before and directly after each), (5) round 7: a real KeyProcessor whose handlers call kb.add / kb.remove(handler) "
+        "on the registry it dispatches from, while keys are being processed (plain or behind merge/dynamic/conditional wrappers); handler calls reported by the "
+        "binding's position in kb.bindings at call time, the oracle uses the registry as it was at each call / drop / end of op, the registered handler "
+        "identities are compared at the end; SimpleCache eviction (small maxsize, and the real maxsize "
         "exceeded), version/_last_version and the keys held by every SimpleCache compared at the end of each registry history" % ("6%" if chk.tier == "thorough" else "0.3%"))
     chk.assumptions += [
-        "handler effects are data (flip condition / feed keys / raise / app.exit() / call process_keys() again); a handler that mutates the registry is outside the model, and so is re-entry combined with cursor position reports (the decoder rejects such cases)",
+        "handler effects are data (flip condition / feed keys / raise / app.exit() / call process_keys() again; family 5: kb.add / kb.remove(handler) at the start of the handler body, Model/C04_KeyProcMut.v); cursor position reports are outside family 5, and so is re-entry combined with cursor position reports (the decoder rejects such cases)",
         "the timeout is the explicit _Flush item; the asyncio timer (_start_timeout) is disabled (timeoutlen=None)",
         "is_global is a constant per binding; SimpleCache eviction is modelled with the two maxsize values read from the real KeyBindings (%r) and, in the eviction family, the real SimpleCache class capped at 1..3 entries by patching the name SimpleCache in key_binding.key_bindings; id() reuse after garbage collection (DynamicKeyBindings version) is not modelled" % (real_maxsizes(),),
         "KeyPressEvent.arg/is_repeat, macro recording, undo save points, vi cursor fix-up are outside the model",
@@ -1600,6 +1744,16 @@ def f_str(f):
 
 def explain(case, wrap=0):
     """the case in words (what to type against the real objects)"""
+    if case[0] == 5:
+        def bdesc(b):
+            return "kb.add(%s, filter=%s, eager=%s)(handler%d)" % (", ".join(repr(KN[k]) for k in b[0]), f_str(b[1]), f_str(b[2]), b[4])
+        print("handlers that mutate the registry; a handler is reported by the position of its binding in kb.bindings at call time")
+        for hid, ms in case[3]:
+            print("  handler%d first does: %s" % (hid, "; ".join(bdesc(m[1]) if m[0] == 0 else "kb.remove(handler%d)" % m[1] for m in ms) or "nothing"))
+        explain([1, case[1], case[2], case[4], case[5]], wrap)
+        print("  (initial bindings are registered with Filter objects: one whose filter is an instance of Never is not registered;")
+        print("   binding #i above belongs to handler%s)" % ", ".join(str(b[4]) for b in case[2]))
+        return
     if case[0] == 1:
         print("conditions c0.. = %r; registry = KeyBindings%s" % (case[1], {0: "", 1: " behind merge_key_bindings", 2: " behind DynamicKeyBindings",
                                                                             3: " behind ConditionalKeyBindings(merge([empty, kb]), True)"}[wrap]))
@@ -1678,7 +1832,7 @@ def replay(data):
         print("  impl:", r)
     print("ORACLE FAILS: %s %r" % (bad[0], bad[2]) if bad else "oracle ok")
     m = run_model("c04", [case])[0]
-    if case[0] == 1:
+    if case[0] in (1, 5):
         m = kp_model_post(m)
     print("model agrees" if m == sx_norm(out) else "model differs: %r" % (m,))
     return 1 if bad or m != sx_norm(out) else 0
